@@ -211,6 +211,26 @@ fn run_program(seed: u64, hid: u64, maxops: usize) {
         if nb.as_slice() != nb_expected.as_slice() {
             line!("X neighbour_disturbed");
         }
+        // trait forwarding: whenever both hold the same valid text they hash, compare and print alike,
+        // also through Borrow<str> (a map keyed by the arena String is looked up with a &str)
+        if bo.valid && bo.bytes == so.bytes {
+            use std::hash::{Hash, Hasher};
+            let hb = { let mut h = std::collections::hash_map::DefaultHasher::new(); b.hash(&mut h); h.finish() };
+            let hs = { let mut h = std::collections::hash_map::DefaultHasher::new(); s.hash(&mut h); h.finish() };
+            let hstr = { let mut h = std::collections::hash_map::DefaultHasher::new(); s.as_str().hash(&mut h); h.finish() };
+            let other = "aé";
+            let same = hb == hs && hb == hstr
+                && (b == *s.as_str()) && (b.as_str() == s.as_str()) && (b == *other) == (s == other)
+                && b.as_str().cmp(other) == s.as_str().cmp(other)
+                && format!("{}", b) == format!("{}", s) && format!("{:?}", b) == format!("{:?}", s)
+                && b.len() == s.len() && b.is_empty() == s.is_empty()
+                && b.chars().rev().collect::<Vec<char>>() == s.chars().rev().collect::<Vec<char>>()
+                && b.char_indices().collect::<Vec<_>>() == s.char_indices().collect::<Vec<_>>()
+                && b.as_bytes() == s.as_bytes() && AsRef::<str>::as_ref(&b) == s.as_str() && std::borrow::Borrow::<str>::borrow(&b) == s.as_str();
+            if !same {
+                line!("X forwarding_differs_from_std hash={} {} {}", hb, hs, hstr);
+            }
+        }
         if bo.res == "panic" || so.res == "panic" {
             if !bo.valid {
                 // reported by the checker from the T line
